@@ -38,10 +38,10 @@ ASSUMPTIONS = [
     'datetimes in tables are naive datetime.datetime values (what datetimeNew / parsing produce); the model holds the normalised instant as an '
     'integer; date objects and aware datetimes (whose Python </==/hash differ) are outside the data streams',
     'functions and regexes are keyed by identity by _bucket_key: outside the value fragment of bucket_key_faithful (IsData)',
-    'dataAggregate: sum is exact for the generated measures (dyadic rationals, exactly summable in double); statistics.mean returns the '
-    'correctly rounded exact mean (int when integral over ints) and statistics.pstdev the correctly rounded square root of the exact population '
-    'variance (CPython >= 3.11) - HostFloat.round/sqrt are NOT modelled: the harness checks the implementation against the exact mean / variance '
-    'the model returns (exact when representable, within one ulp bracket for the square root)',
+    'dataAggregate: math.fsum returns the correctly rounded exact sum (measure ints stay below 2^53: fsum converts each int to a double first), '
+    'statistics.mean the correctly rounded exact mean (int when integral over ints) and statistics.pstdev the correctly rounded square root of '
+    'the exact population variance (CPython >= 3.11) - HostFloat.round/sqrt are NOT modelled: the harness checks the implementation against the '
+    'exact sum / mean / variance the model returns (equal to its correct rounding; within a one-ulp bracket for an irrational square root)',
     'dataAggregate: min/max use Python min()/max(): modelled for scalar measure values (number, boolean-as-int, string, datetime; a mix is a '
     'TypeError -> null); array/object measure values under min/max, a measure name equal to a category name and duplicate measure names are '
     'outside the model (answered "unmodelled", implementation checked not to hang only)',
@@ -390,6 +390,9 @@ def float_cell_matches(impl, q, fn):
     """Does the implementation's number agree with the exact value the model returned for an average / stddev cell?"""
     if isinstance(impl, bool) or not isinstance(impl, (int, float)):
         return False
+    if fn == 'sum':
+        # the exact sum, or its correctly rounded double (the int/float spelling of the result is not part of the property)
+        return Fraction(impl) == q if isinstance(impl, int) else impl == q.numerator / q.denominator
     if fn == 'average':
         if isinstance(impl, int):
             return Fraction(impl) == q
@@ -436,7 +439,7 @@ def impl_view(case, run, model):
                 for cell in erow['v']:
                     fn = fns.get(cell[0])
                     mc = mcells.get(cell[0])
-                    if fn in ('average', 'stddev') and mc is not None and mc.get('t') == 'num' and isinstance(irow, dict):
+                    if fn in ('sum', 'average', 'stddev') and mc is not None and mc.get('t') == 'num' and isinstance(irow, dict):
                         if float_cell_matches(irow.get(cell[0]), Fraction(mc['v'][0], mc['v'][1]), fn):
                             cell[1] = mc
         return {'rows': rows}
@@ -619,7 +622,7 @@ def aggregate_oracle(case, run):
                     elif kind == 'cmp0':
                         ok = ok and typed_equal(g, val)
                     elif kind == 'num':
-                        ok = ok and isinstance(g, (int, float)) and not isinstance(g, bool) and Fraction(g) == val
+                        ok = ok and float_cell_matches(g, val, 'sum')
                     elif kind == 'average':
                         ok = ok and float_cell_matches(g, val, 'average')
                     else:
@@ -712,7 +715,7 @@ KEY_GROUPS = [
     [True, False, I(1), I(0), 'true'],
     [L(I(1), 'a.0,'), L(I(1), 'a,'), L(L(I(1))), L(L(F(1.0))), O(['a', L(I(1))]), O(['a', L(F(1.0))])],
 ]
-MEASURE_CLEAN = [I(0), I(1), I(2), I(3), I(-3), I(6), F(0.5), F(2.0), F(-1.25), F(4.75), F(1.0), None, None, I(10)]
+MEASURE_CLEAN = [I(0), I(1), I(2), I(3), I(-3), I(6), F(0.5), F(2.0), F(-1.25), F(4.75), F(1.0), None, None, I(10), F(0.1), F(0.2), F(0.3), F(1e16), F(-1e16)]
 MEASURE_DIRTY = ['s', 't', True, False, D(2021, 5, 6), D(2020, 1, 1), L(I(1)), O(['k', I(1)]), '1']
 MEASURE_STR = ['b', 'a', 'ab', '', 'B', None]
 MEASURE_DT = [D(2021, 5, 6), D(2020, 1, 1), D(2020, 1, 1, 0, 0, 1), None]
@@ -1224,7 +1227,9 @@ def check_csv_case(ctx, st, case, resp, header, recs):
     if 'exception' in impl:
         ctx.witness('csv-parse-does-not-abort', case['chunks'], 'table or field TypeError', impl['exception'])
         return
-    # oracle 2: reference typing
+    # oracle 2: reference typing (records with surplus cells get a None key from csv.DictReader: outside the property)
+    if header is not None and (len(set(header)) != len(header) or any(len(r) != len(header) for r in recs)):
+        return
     want = ref_parse_csv(header, recs, off) if header is not None else []
     if (want is None) != (res is None) or (want is not None and enc_table(want) != enc_table(res)):
         ctx.witness('csv-reference-typing', case['chunks'], None if want is None else enc_table(want), impl)
@@ -1316,8 +1321,13 @@ def stream_cell(ctx):
     off = local_offset()
     resps = ctx.driver.batch([{'op': 'csvCell', 'text': t, 'off': off} for t in texts])
     for t, resp in zip(texts, resps):
-        res = library.SCRIPT_FUNCTIONS['dataParseCSV'](['c', csv_quote(t) if t != '' else '""'], None)
+        chunks = ['c', csv_quote(t) if t != '' else '""']
         st.case(t, nontrivial=t != '', tags=[ref_cell_type(t, off) or 'null'])
+        try:
+            res = library.SCRIPT_FUNCTIONS['dataParseCSV'](list(chunks), None)
+        except Exception as exc:  # pylint: disable=broad-except
+            ctx.witness('csv-parse-does-not-abort', chunks, 'table', type(exc).__name__ + ': ' + str(exc))
+            continue
         got = res[0]['c'] if res else None
         model = round_model_nums(resp.get('value'))
         ctx.compare('csvcell', t, {'type': ref_cell_type(t, off), 'value': enc(got)}, {'type': resp.get('type'), 'value': model})
@@ -1325,9 +1335,9 @@ def stream_cell(ctx):
         want = {'datetime': lambda: ref_parse_datetime(t, off), 'number': lambda: ref_parse_number(t), 'boolean': lambda: t == 'true',
                 'string': lambda: t, None: lambda: (None if t == 'null' else t)}[kind]()
         if not typed_equal(got, want):
-            ctx.witness('csv-reference-typing', ['c', t], spec_of(want), spec_of(got))
+            ctx.witness('csv-reference-typing', chunks, spec_of(want), spec_of(got))
         if t in DATELIKE and got != t:
-            ctx.witness('datelike-kept-string', ['c', t], t, spec_of(got))
+            ctx.witness('datelike-kept-string', chunks, t, spec_of(got))
     st.exhaustive = True
 
 
@@ -1363,10 +1373,6 @@ def search(ctx):
             for oracle, want, got in bad:
                 ctx.witness(oracle, case, want, got)
             return
-
-    class _Sink:
-        def __init__(self):
-            self.found = []
 
     def csv_search():
         off = local_offset()
